@@ -504,7 +504,7 @@ inline Plan gen_c04(u64 seed, const std::string& tier)
     p.set("property", "C04");
     p.set("engine", "wire");
     if(sim::options().count("known")) p.set("known", sim::options()["known"]);
-    const auto& ds = drivers();
+    const auto& ds = consumer_drivers();
     const Driver& d = ds[wl.below(ds.size())];
     const SchemaShape& sh = *d.shape;
     p.set("build", d.checked ? "checked" : "unchecked");
